@@ -237,7 +237,7 @@ func zzDecHsNewSessionTicketNoPanic() {
 }
 
 // decodeCipherSuiteIDs (ClientHello cipher_suites<2..2^16-2>) on every length 0..NMSGBODY with a declared length
-// below 160: no panic, terminates; every returned id was present in the buffer.
+// below 128: no panic, terminates; every returned id was present in the buffer.
 //
 //symgo:entry covers=cs_ok,cs_rejected
 func zzDecHsCipherSuiteIDsNoPanic() {
@@ -245,7 +245,7 @@ func zzDecHsCipherSuiteIDsNoPanic() {
 	data := zzsymBytes("d", n)
 	if n >= 2 {
 		// the decoder allocates the declared count before validating it; the engine enumerates <= 80 sizes
-		zzsymAssume(zzsymAnd(data[0] == 0, data[1] < 160))
+		zzsymAssume(zzsymAnd(data[0] == 0, data[1] < 128))
 	}
 	ids, err := decodeCipherSuiteIDs(data)
 	if err != nil {
@@ -256,14 +256,14 @@ func zzDecHsCipherSuiteIDsNoPanic() {
 	zzsymCover("cs_ok")
 }
 
-// decodeCipherSuiteIDs with a large declared length (160, 256, 0x7fff, 0xfffe, 0xffff: concrete, because the
+// decodeCipherSuiteIDs with a large declared length (128, 256, 0x7fff, 0xfffe, 0xffff: concrete, because the
 // decoder allocates the declared count up front) in a buffer of every length 2..NMSGBODY whose other bytes are
 // arbitrary: no panic, always rejected, so the up-to-64 KiB allocation is transient.
 //
 //symgo:entry covers=csl_rejected
 func zzDecHsCipherSuiteIDsLargeCount() {
 	n := 2 + zzsymChoice("len", zzsymParam("NMSGBODY")-1)
-	decl := []int{160, 256, 0x7fff, 0xfffe, 0xffff}[zzsymChoice("declared", 5)]
+	decl := []int{128, 256, 0x7fff, 0xfffe, 0xffff}[zzsymChoice("declared", 5)]
 	data := make([]byte, n)
 	copy(data[2:], zzsymBytes("d", n-2))
 	data[0], data[1] = byte(decl>>8), byte(decl)
